@@ -154,21 +154,24 @@ def UserBounds.matches (b : UserBounds) (idx : Int) : Option Bool :=
     | .cont, .some r => decide (idx ≤ r)
     | .some l, .cont => decide (l ≤ idx)
 
+/-- the `start` of `try_into_range`: 0-based index of the first part (`none` = "Out of bounds") -/
+def rangeStart (l : Side) (n : Int) : Option Int :=
+  match l with
+  | .cont => some 0
+  | .some v => if v > n ∨ v < -n then none else if v < 0 then some (n + v) else some (v - 1)
+
+/-- the `end` of `try_into_range`: 0-based index one past the last part -/
+def rangeEnd (r : Side) (n : Int) : Option Int :=
+  match r with
+  | .cont => some n
+  | .some v => if v > n ∨ v < -n then none else if v < 0 then some (n + v + 1) else some v
+
 /-- `UserBounds::try_into_range` (userbounds.rs:215): 0-based half-open `(start, end)`. -/
 def UserBounds.tryIntoRange (b : UserBounds) (partsLength : Nat) : Option (Nat × Nat) :=
-  let n : Int := partsLength
-  let start : Option Int :=
-    match b.l with
-    | .cont => some 0
-    | .some v => if v > n ∨ v < -n then none else if v < 0 then some (n + v) else some (v - 1)
-  match start with
+  match rangeStart b.l partsLength with
   | none => none
   | some s =>
-    let stop : Option Int :=
-      match b.r with
-      | .cont => some n
-      | .some v => if v > n ∨ v < -n then none else if v < 0 then some (n + v + 1) else some v
-    match stop with
+    match rangeEnd b.r partsLength with
     | none => none
     | some e => if e ≤ s then none else some (s.toNat, e.toNat)
 
